@@ -197,10 +197,9 @@ func (eval Evaluator) PartialTracesSum(ctIn *Ciphertext, offset, n int, opOut *C
 	}
 
 	if n == 1 {
-		if ctIn != opOut {
-			opOut.Value[0].CopyLvl(levelQ, ctIn.Value[0])
-			opOut.Value[1].CopyLvl(levelQ, ctIn.Value[1])
-		}
+		// ctInNTT and not ctIn: the result is brought back to the domain of ctIn below
+		opOut.Value[0].CopyLvl(levelQ, ctInNTT.Value[0])
+		opOut.Value[1].CopyLvl(levelQ, ctInNTT.Value[1])
 	} else {
 
 		// BuffQP[0:2] are used by AutomorphismHoistedLazy
@@ -353,7 +352,8 @@ func (eval Evaluator) InnerFunction(ctIn *Ciphertext, batchSize, n int, f func(a
 	}
 
 	if n == 1 {
-		opOut.Copy(ctIn)
+		// ctInNTT and not ctIn: the result is brought back to the domain of ctIn below
+		opOut.Copy(ctInNTT)
 	} else {
 
 		// Accumulator mod Q
